@@ -10,6 +10,10 @@
 //   S <thread#> <time_ns> <w> <frames..>     add_sample; frames root first: l<name> (label) | a<hex> (instruction pointer) | r<hex> (return address)
 //                                            (an empty frame list = no stack)
 //   K <thread#> <time_ns> <name> <text> <frames..>   add_marker (Text marker, one string field) + set_marker_stack when frames are given
+//   G <type_name> <kinds>                    register_marker_type; kinds: one letter per field, u = String (unique-string), s = Url / p = FilePath / z = SanitizedString (plain JSON strings),
+//                                            n = Integer; "-" = no fields; field keys f0, f1, ...                       -> runtime marker type #k
+//   R <thread#> <I|V|B|E> <t1> <t2> <type#> <name> <v0,v1,..|-> <frames..>   add_marker with a runtime-schema marker (one value per field: a word for
+//                                            string fields, an integer for number fields) + set_marker_stack when frames are given
 //   C <proc#> <name>                         add_counter                       -> counter #k
 //   D <counter#> <time_ns> <value> <n>       add_counter_sample
 //   V <thread#> / W <thread#>                add_initial_visible_thread / add_initial_selected_thread
@@ -44,6 +48,29 @@ impl StaticSchemaMarker for TextMarker {
     }
 }
 
+/// A marker of a runtime-registered type: values per field index.
+pub struct DynMarker {
+    pub ty: MarkerTypeHandle,
+    pub name: StringHandle,
+    pub strings: Vec<Option<StringHandle>>,
+    pub numbers: Vec<Option<f64>>,
+}
+
+impl Marker for DynMarker {
+    fn marker_type(&self, _profile: &mut Profile) -> MarkerTypeHandle {
+        self.ty
+    }
+    fn name(&self, _profile: &mut Profile) -> StringHandle {
+        self.name
+    }
+    fn string_field_value(&self, field_index: u32) -> StringHandle {
+        self.strings[field_index as usize].expect("string_field_value asked for a non-string field")
+    }
+    fn number_field_value(&self, field_index: u32) -> f64 {
+        self.numbers[field_index as usize].expect("number_field_value asked for a non-number field")
+    }
+}
+
 fn stack_of(profile: &mut Profile, thread: ThreadHandle, frames: &[&str]) -> Option<StackHandle> {
     let mut stack = None;
     for f in frames {
@@ -71,6 +98,7 @@ pub fn run(line: &str) -> String {
         let mut threads = Vec::new();
         let mut libs = Vec::new();
         let mut counters = Vec::new();
+        let mut mtypes: Vec<(MarkerTypeHandle, String)> = Vec::new();
         for op in line.split(';') {
             let t: Vec<&str> = op.split_whitespace().collect();
             if t.is_empty() {
@@ -129,6 +157,68 @@ pub fn run(line: &str) -> String {
                     let mh = profile.add_marker(th, MarkerTiming::Instant(ns(t[2])), TextMarker { name, text });
                     if t.len() > 5 {
                         let stack = stack_of(&mut profile, th, &t[5..]);
+                        profile.set_marker_stack(th, mh, stack);
+                    }
+                }
+                "G" => {
+                    let kinds = if t[2] == "-" { "" } else { t[2] };
+                    let fields = kinds
+                        .chars()
+                        .enumerate()
+                        .map(|(i, k)| RuntimeSchemaMarkerField {
+                            key: format!("f{i}"),
+                            label: format!("Field {i}"),
+                            format: match k {
+                                'u' => MarkerFieldFormat::String,
+                                's' => MarkerFieldFormat::Url,
+                                'p' => MarkerFieldFormat::FilePath,
+                                'z' => MarkerFieldFormat::SanitizedString,
+                                'n' => MarkerFieldFormat::Integer,
+                                x => panic!("bad kind {x}"),
+                            },
+                            flags: MarkerFieldFlags::empty(),
+                        })
+                        .collect();
+                    let h = profile.register_marker_type(RuntimeSchemaMarkerSchema {
+                        type_name: t[1].to_string(),
+                        category: CategoryHandle::OTHER,
+                        description: None,
+                        locations: MarkerLocations::MARKER_CHART | MarkerLocations::MARKER_TABLE,
+                        chart_label: None,
+                        tooltip_label: None,
+                        table_label: None,
+                        fields,
+                        graphs: vec![],
+                    });
+                    mtypes.push((h, kinds.to_string()));
+                }
+                "R" => {
+                    let th = threads[t[1].parse::<usize>().unwrap()];
+                    let (t1, t2) = (ns(t[3]), ns(t[4]));
+                    let timing = match t[2] {
+                        "I" => MarkerTiming::Instant(t1),
+                        "V" => MarkerTiming::Interval(t1, t2),
+                        "B" => MarkerTiming::IntervalStart(t1),
+                        "E" => MarkerTiming::IntervalEnd(t2),
+                        x => panic!("bad timing {x}"),
+                    };
+                    let (ty, kinds) = mtypes[t[5].parse::<usize>().unwrap()].clone();
+                    let name = profile.handle_for_string(t[6]);
+                    let vals: Vec<&str> = if t[7] == "-" { vec![] } else { t[7].split(',').collect() };
+                    let mut strings = Vec::new();
+                    let mut numbers = Vec::new();
+                    for (i, k) in kinds.chars().enumerate() {
+                        if k == 'n' {
+                            strings.push(None);
+                            numbers.push(Some(vals[i].parse::<f64>().unwrap()));
+                        } else {
+                            strings.push(Some(profile.handle_for_string(vals[i])));
+                            numbers.push(None);
+                        }
+                    }
+                    let mh = profile.add_marker(th, timing, DynMarker { ty, name, strings, numbers });
+                    if t.len() > 8 {
+                        let stack = stack_of(&mut profile, th, &t[8..]);
                         profile.set_marker_stack(th, mh, stack);
                     }
                 }
